@@ -27,7 +27,8 @@ RULE = ('C07\'s generated histories (blocks, natural and forced reorgs incl. one
         'part as a set with fee and height flag; balance pair; unspent list (confirmed part '
         'ordered, mempool part as a set, minus mempool-spent); mempool list; tx hash at position; '
         'merkle branches fold to the header\'s merkle root. Non-trivial = a cache-populating query '
-        'was answered inside a reorg window or between a block flush and its notification.')
+        'was answered inside a reorg window or between a block flush and its notification.' 
+        'c10.limit_cache: C17\'s long-history fixture driven through the block that takes a script to its limit and the reorganisation that takes it back; what was cached on the way (history or \'history too large\') must not be served afterwards.')
 ASSUMPTIONS = c07.ASSUMPTIONS
 BUDGET_S = {'quick': 150, 'thorough': 3300}
 
